@@ -255,6 +255,11 @@ package protocol
 //@   loop#4 invariant parserInv(self) && self.stage == 4 && self.cargIndex >= 0 && parserCarry(self)
 //@   ensures C13.parser.request: parserInv(self)
 //@   ensures C14.parser.carry: parserCarry(self)
+// C14 (framing independence, reply side): the empty argument of a zero-length bulk is added once, when its terminating
+// line feed is consumed - never while the terminator is still outstanding (a CRLF cut between two reads must not add it twice)
+//@ func (*TextParser).ParseResponse
+//@   requires self != nil
+//@   at call append assert C14.parser.empty-once: implies(self.stage == 4 && len(arg1) == 1 && len(arg1[0]) == 0 && self.cargLen == 0, self.rbuf[self.bufIndex] == 10)
 //@ func (*Command).Decode
 //@   requires self != nil && len(buf) >= 64
 //@   inline
@@ -417,3 +422,11 @@ package protocol
 //@   requires lockCommandResult != nil
 //@   at call WriteBytes#2 assert C15.get.novalue: len(lockResultCommandData.Data) <= 6
 //@   at call WriteBytes#1 assert C15.get.value: len(lockResultCommandData.Data) > 6
+
+// C14/C15: the value frame encoder leaves room for exactly what it writes: with no property entries (a nil list, or a list
+// that is empty) the value starts where the frame's own flag byte says it starts and ends with the frame
+//@ func NewLockCommandDataFromBytes
+//@   requires C14.frame.flag,C15.frame.flag: dataFlag&0x10 == 0
+//@   loop#1 invariant -1 <= rangeindex && rangeindex < len(properties) && implies(len(properties) == 0, propertyLen == 0)
+//@   loop#2 invariant -1 <= rangeindex && rangeindex < len(properties) && implies(len(properties) == 0, index == 8)
+//@   at call copy assert C14.frame.fits,C15.frame.fits: implies(len(properties) == 0 && len(data) < 0x40000000, len(buf) == index + len(data) && index == ite(dataFlag&0x10 != 0, 8, 6))
